@@ -559,84 +559,286 @@ Print Assumptions c11_sound_full_holm.
      mean = sum/max(1,n), var = (sumsq - sum^2/max(1,n))/max(1,n-1)              (aggregate_stats)
      t^2, sign(t), nu exactly, with the IEEE cases explicit (tnu)                  (_calculate_tt_nu)
      pij = ge1/max(1,n), q1 = max, qdiff = |pij1-pij2|/max (or /1), fold = |mean1-mean2|
-     p = p_of_cdf of the ORACLE value t.cdf(t, nu) (cdfs, one per gene), 0.5 if skipped or NaN
-   tied to the real functions on exact inputs by tags 1150-1154 (harness: welch_cases).
-   sdg_stats st mask D H lo hi T b cdfs s1 s2 = score_differential_genes on that pair. *)
+     p = p_of_cdf of the ORACLE value t.cdf(t, nu) (t_cdf : tnu -> option Z, a function of the modelled
+       statistic; on the wire a finite table, Model/Welch.v table_cdf), 0.5 if skipped or NaN
+   var, the means and mean1 - mean2 (hence log2_fold and the direction) are the BINARY64 values (var_f, mean_f,
+   mdiff_f: every operation rounded to 53 bits), because their sign / zero-ness is decided by cancellation
+   residues when a gene is constant at a non-dyadic value; pij, q1, qdiff, t^2 and nu are exact rationals of those
+   tied to the real functions by tags 1150-1154 (harness: welch_cases: exact-grid inputs and non-dyadic
+   constant genes whose stored statistics are read as exact dyadics).
+   sdg_stats st mask D H lo hi T b t_cdf s1 s2 = score_differential_genes on that pair. *)
 
 (* soundness in terms of the statistics: a recorded gene g has both clusters >= n_cells_min, the
-   restricted-Holm value of the Welch p-values below p_th, is in the list, and its penetrance /
-   fold numbers - which ARE (stat_crit: exact equations, no rounding) max(pij), |dpij|/max, |dmean|
-   of rows g - are on or above the floors (strictly above the thresholds in exact mode) *)
-Theorem c11_sound_from_stats : forall st mask D H lo hi T b cdfs s1 s2 v up g,
+   restricted-Holm value of the Welch p-values below p_th, is in the list, and - PROVIDED NO RATIONAL SCORE
+   OF THE GENE EQUALS A THRESHOLD OR A FLOOR (off_threshold; audit 3, defect A1) - its penetrance / fold
+   numbers, which ARE (stat_crit: exact equations) max(pij), |dpij|/max, |dmean| of rows g, are on or above
+   the floors and in fact STRICTLY above them (strictly above the thresholds in exact mode).
+   Why the hypothesis: the model's scores are exact rationals, the code's are binary64 results of 2-4
+   rounded operations.  The two agree on every comparison unless the rational score is within ~2^-50
+   (relative) of the threshold, which for cell counts below 2^24 means: equal to the threshold the user wrote
+   (7/10, 1/10, 4/5).  THERE the float lands on either side and the real code does the opposite of the exact
+   computation - both directions are exhibited below (c11_threshold_hit_records_what_exact_excludes,
+   c11_floor_hit_rejects_what_exact_admits; the auditor's inputs, re-run against the real code on every run by
+   harness threshold_hit_cases, evidence key c11_threshold_hit_exactly).  This is float rounding AT an
+   exactly-hit threshold, outside the property's "up to rounding"; it is excluded here explicitly, and the
+   conclusion under the hypothesis uses only strict inequalities. *)
+Theorem c11_sound_from_stats : forall st mask D H lo hi T b t_cdf s1 s2 v up g,
   0 < D ->
   - st_S st < q1_min (st_th st) -> q1_min (st_th st) < q1_th (st_th st) ->
-  sdg_stats st mask D H lo hi T b cdfs s1 s2 = POk (v, up) -> nth_error v g = Some true ->
+  sdg_stats st mask D H lo hi T b t_cdf s1 s2 = POk (v, up) -> nth_error v g = Some true ->
   st_n_min st <= s_n s1 /\ st_n_min st <= s_n s2 /\
   exists l1 l2 c1 c2,
     cstats_of s1 = POk l1 /\ cstats_of s2 = POk l2 /\ nth_error l1 g = Some c1 /\ nth_error l2 g = Some c2 /\
-    (exists a, nth_error (approx_correct_ttest (2 * H) T (welch_pvalues H lo hi b (welch_genes D l1 l2) cdfs)) g = Some a /\ a < T) /\
+    (exists a, nth_error (approx_correct_ttest (2 * H) T (welch_pvalues H lo hi b t_cdf (welch_genes D l1 l2))) g = Some a /\ a < T) /\
     in_list mask g /\
-    (0 <= c_ge1 c1 -> 0 <= c_ge1 c2 -> stat_crit (st_th st) (st_exact st) D (st_S st) c1 c2).
+    (0 <= c_ge1 c1 -> 0 <= c_ge1 c2 -> off_threshold (st_th st) D (st_S st) c1 c2 ->
+     stat_crit (st_th st) (st_exact st) D (st_S st) c1 c2).
 Proof. exact sdg_stats_sound. Qed.
 Print Assumptions c11_sound_from_stats.
 
+(* the vocabulary of the last conjunct, spelled out (definitions in Proofs/WelchP.v) *)
+Example c11_off_threshold_unfold : forall th D S c1 c2,
+  off_threshold th D S c1 c2 <->
+  (fst (q1_r c1 c2) * S <> q1_th th * snd (q1_r c1 c2) /\ fst (q1_r c1 c2) * S <> q1_min th * snd (q1_r c1 c2) /\
+   fst (qdiff_r c1 c2) * S <> qdiff_th th * snd (qdiff_r c1 c2) /\ fst (qdiff_r c1 c2) * S <> qdiff_min th * snd (qdiff_r c1 c2) /\
+   fst (fold_f D c1 c2) * S <> fold_th th * snd (fold_f D c1 c2) /\ fst (fold_f D c1 c2) * S <> fold_min th * snd (fold_f D c1 c2)).
+Proof. intros. reflexivity. Qed.
+Example c11_stat_crit_unfold : forall th exact D S c1 c2,
+  stat_crit th exact D S c1 c2 <->
+  exists q1 qd f,
+    q1 * snd (q1_r c1 c2) = fst (q1_r c1 c2) * S /\ qd * snd (qdiff_r c1 c2) = fst (qdiff_r c1 c2) * S /\
+    f * snd (fold_f D c1 c2) = fst (fold_f D c1 c2) * S /\
+    (if exact then q1_th th < q1 /\ qdiff_th th < qd /\ fold_th th < f
+     else q1_min th <= q1 /\ qdiff_min th <= qd /\ fold_min th <= f) /\
+    (if exact then q1_th th < q1 /\ qdiff_th th < qd /\ fold_th th < f
+     else q1_min th < q1 /\ qdiff_min th < qd /\ fold_min th < f).
+Proof. intros. unfold stat_crit, crit, crit_strict, strictly_passes, above_floors, strictly_above_floors. destruct exact; reflexivity. Qed.
+
+(* A1, direction 1 (the auditor's input): n1 = 4, ge1 = 1; n2 = 6, ge1 = 5: pij = 1/4 and 5/6, qdiff = 7/10 EXACTLY
+   = qdiff_th (thresholds over S = 1200: 0.5, 0.1, 0.7, 0.1, 1.0, 0.8).  off_threshold fails; the exact model in
+   exact-penetrance mode does NOT record the gene; the real score_differential_genes on cells [0,0,0,2] against
+   [0,8,8,9,9,8] computes qdiff = 0.7000000000000001 > 0.7 and RECORDS it. *)
+Definition c11_hit_st (exact : bool) := mk_settings 1200 (mk_th 600 120 840 120 1200 960) 2 exact 1 0.
+Example c11_threshold_hit_records_what_exact_excludes :
+  let c1 := mk_cstat 4 2 4 1 in let c2 := mk_cstat 6 42 354 5 in
+  fst (qdiff_r c1 c2) * 1200 = 840 * snd (qdiff_r c1 c2) /\
+  ~ off_threshold (st_th (c11_hit_st true)) 1 1200 c1 c2 /\
+  sdg_stats (c11_hit_st true) None 1 500000 1 999999 10000 None (fun _ => Some 2303)
+            (mk_summary 4 [2] [4] [1] [1] [1]) (mk_summary 6 [42] [354] [5] [5] [5]) = POk ([false], [true]).
+Proof.
+  cbv zeta. split; [vm_compute; reflexivity|]. split; [|vm_compute; reflexivity].
+  intros (_ & _ & O3 & _). apply O3. vm_compute. reflexivity.
+Qed.
+(* A1, direction 2: n1 = 10, ge1 = 9; n2 = 2, ge1 = 2: pij = 9/10 and 1, qdiff = 1/10 EXACTLY = qdiff_min_th.  The
+   exact model keeps the gene above the floor and the relaxation (n_valid = 1) records it; the real code computes
+   |0.9 - 1.0|/1.0 = 0.09999999999999998 < 0.1, marks the gene invalid and records NOTHING (cells: eight 2.0, one
+   4.0 and one 0.0 against 8.0, 9.0 - all means dyadic; p_th = 0.5, raw p = 0.0111). *)
+Example c11_floor_hit_rejects_what_exact_admits :
+  let c1 := mk_cstat 10 20 48 9 in let c2 := mk_cstat 2 17 145 2 in
+  fst (qdiff_r c1 c2) * 1200 = 120 * snd (qdiff_r c1 c2) /\
+  ~ off_threshold (st_th (c11_hit_st false)) 1 1200 c1 c2 /\
+  sdg_stats (c11_hit_st false) None 1 500000 1 999999 500000 None (fun _ => Some 5561)
+            (mk_summary 10 [20] [48] [9] [9] [9]) (mk_summary 2 [17] [145] [2] [2] [2]) = POk ([true], [true]).
+Proof.
+  cbv zeta. split; [vm_compute; reflexivity|]. split; [|vm_compute; reflexivity].
+  intros (_ & _ & _ & O4 & _). apply O4. vm_compute. reflexivity.
+Qed.
+(* ... and a gene off every threshold meets the hypothesis (c11_from_stats_nonvacuous below uses it) *)
+Example c11_off_threshold_nonvacuous :
+  off_threshold (mk_th 512 102 717 102 1024 819) 4 1024 (mk_cstat 4 128 4104 4) (mk_cstat 4 4 8 0).
+Proof. unfold off_threshold, rne. vm_compute. repeat split; discriminate. Qed.
+
 (* ... against the INDEPENDENT computation the property asks for: exact two-sided Welch p-values
-   (no gene skipped: b = None) and the FULL Holm-Bonferroni correction.  Premise (about scipy's values
-   at the skipped genes; evaluated numerically by the harness on every gene that occurs, class
-   c11-boring-premise-false-on-occurring-value): the CDF value c of every skipped gene has
-   2c >= p_th and 2(1-c) >= p_th.  It is false for nu above a few million (finding, see
-   c11_boring_needs_end_lo). *)
-Theorem c11_sound_exact_welch : forall st mask D H lo hi T b cdfs s1 s2 v up g,
+   (no gene skipped: b = None) and the FULL Holm-Bonferroni correction.  t_cdf : tnu -> option Z is the
+   oracle scipy.stats.t.cdf AS A FUNCTION OF THE MODELLED STATISTIC (sign, t^2, nu) - audit 3, defect A6: two
+   genes with the same statistic get the same p-value (c11_equal_statistic_equal_p), nu is an argument.
+   Premise here: per skipped gene, the CDF value c has 2c >= p_th and 2(1-c) >= p_th.
+   c11_sound_exact_welch_composed below DERIVES it from the premises of c11_boring_exact_p_ge. *)
+Theorem c11_sound_exact_welch : forall st mask D H lo hi T b t_cdf s1 s2 v up g,
   0 < D -> 0 < H -> 0 <= lo <= H -> H <= hi <= 2 * H -> T <= 2 * H ->
   - st_S st < q1_min (st_th st) -> q1_min (st_th st) < q1_th (st_th st) ->
   (forall l1 l2 gc c, cstats_of s1 = POk l1 -> cstats_of s2 = POk l2 ->
-       In gc (combine (welch_genes D l1 l2) cdfs) -> gbrg b gc = true -> gcdf gc = Some c ->
+       In gc (welch_genes D l1 l2) -> gbrg b gc = true -> gcdf t_cdf gc = Some c ->
        T <= 2 * c /\ T <= 2 * (2 * H - c)) ->
-  sdg_stats st mask D H lo hi T b cdfs s1 s2 = POk (v, up) -> nth_error v g = Some true ->
+  sdg_stats st mask D H lo hi T b t_cdf s1 s2 = POk (v, up) -> nth_error v g = Some true ->
   exists l1 l2, cstats_of s1 = POk l1 /\ cstats_of s2 = POk l2 /\
-    exists h, nth_error (correct_ttest (2 * H) 0 (welch_pvalues H lo hi None (welch_genes D l1 l2) cdfs)) g = Some h /\ h < T.
+    exists h, nth_error (correct_ttest (2 * H) 0 (welch_pvalues H lo hi None t_cdf (welch_genes D l1 l2))) g = Some h /\ h < T.
 Proof. exact sdg_stats_sound_exact_welch. Qed.
 Print Assumptions c11_sound_exact_welch.
 
+(* THE COMPOSITION (audit 3, defect A6).  The skipped-gene premise is no longer assumed per gene: it follows
+   from the premises of c11_boring_exact_p_ge, transported to the statistics the model derives:
+     end_lo / end_hi : the oracle at t = -+boring_t = -+bn/bd (statistic TN -+1 bn^2 bd^2 at nu = n/m) has
+                       two-sided p >= p_th, for every nu;
+     mono / nan      : the oracle is monotone in t, and NaN or not, on [-boring_t, boring_t] at one nu
+                       (band_le bn bd g g': both statistics well formed, not NaN, inside the band, same nu,
+                        t(g) <= t(g') - t = ts*sqrt(ta/td), compared through x |-> sgn(x) x^2).
+   Both proofs go through the same lemma (BoringP.skipped_ge_ord).  The premises are about scipy and the real
+   boring_t; the harness evaluates them on every (t, nu) that occurs (boring_premises). *)
+Theorem c11_sound_exact_welch_composed : forall st mask D H lo hi T bn bd t_cdf s1 s2 v up g,
+  0 < D -> 0 < H -> 0 <= lo <= H -> H <= hi <= 2 * H -> T <= 2 * H ->
+  - st_S st < q1_min (st_th st) -> q1_min (st_th st) < q1_th (st_th st) ->
+  0 <= bn -> 0 < bd ->
+  (* end_lo *) (forall n m c, t_cdf (TN (-1) (bn * bn) (bd * bd) n m) = Some c -> T <= 2 * c) ->
+  (* end_hi *) (forall n m c, t_cdf (TN 1 (bn * bn) (bd * bd) n m) = Some c -> T <= 2 * (2 * H - c)) ->
+  (* scipy *) (forall g g' c c', band_le bn bd g g' -> t_cdf g = Some c -> t_cdf g' = Some c' -> c <= c') ->
+  (* scipy *) (forall g g', band_le bn bd g g' \/ band_le bn bd g' g -> t_cdf g = None -> t_cdf g' = None) ->
+  sdg_stats st mask D H lo hi T (Some (bn, bd)) t_cdf s1 s2 = POk (v, up) -> nth_error v g = Some true ->
+  exists l1 l2, cstats_of s1 = POk l1 /\ cstats_of s2 = POk l2 /\
+    exists h, nth_error (correct_ttest (2 * H) 0 (welch_pvalues H lo hi None t_cdf (welch_genes D l1 l2))) g = Some h /\ h < T.
+Proof. exact sdg_stats_sound_exact_welch_composed. Qed.
+Print Assumptions c11_sound_exact_welch_composed.
+
+(* band_le spelled out *)
+Example c11_band_le_unfold : forall bn bd g g',
+  band_le bn bd g g' <->
+  (in_band bn bd g = true /\ in_band bn bd g' = true /\ tnu_nu g = tnu_nu g' /\
+   match tnu_sq g, tnu_sq g' with Some (s, a, d), Some (s', a', d') => s * a * d' <= s' * a' * d | _, _ => False end).
+Proof. intros. reflexivity. Qed.
+
+(* the premises are satisfiable together: a step CDF on the statistics (0.5 + sign(t)/8, NaN for nu <= 0),
+   boring_t = 1, p_th = 20/64 *)
+Definition c11_toy_tnu_cdf (g : tnu) : option Z :=
+  match tnu_sq g, tnu_nu g with
+  | Some (s, a, d), Some (n, m) => if n <=? 0 then None else Some (32 + 8 * Z.sgn (s * a))
+  | _, _ => None
+  end.
+Example c11_composed_premises_nonvacuous :
+  (forall n m c, c11_toy_tnu_cdf (TN (-1) (1 * 1) (1 * 1) n m) = Some c -> 20 <= 2 * c) /\
+  (forall n m c, c11_toy_tnu_cdf (TN 1 (1 * 1) (1 * 1) n m) = Some c -> 20 <= 2 * (2 * 32 - c)) /\
+  (forall g g' c c', band_le 1 1 g g' -> c11_toy_tnu_cdf g = Some c -> c11_toy_tnu_cdf g' = Some c' -> c <= c') /\
+  (forall g g', band_le 1 1 g g' \/ band_le 1 1 g' g -> c11_toy_tnu_cdf g = None -> c11_toy_tnu_cdf g' = None) /\
+  (* a statistic computed from rows, inside the band, with a non-NaN value *)
+  (let g := welch_gene 4 (mk_cstat 4 5 9 0) (mk_cstat 4 4 8 0) in
+   in_band 1 1 g = true /\ c11_toy_tnu_cdf g = Some 40).
+Proof.
+  split; [|split; [|split; [|split]]].
+  - intros n m c. unfold c11_toy_tnu_cdf. cbn [tnu_sq tnu_nu]. destruct (n <=? 0); [discriminate|].
+    intros E. inversion E. vm_compute. discriminate.
+  - intros n m c. unfold c11_toy_tnu_cdf. cbn [tnu_sq tnu_nu]. destruct (n <=? 0); [discriminate|].
+    intros E. inversion E. vm_compute. discriminate.
+  - intros g g' c c' (B1 & B2 & En & Hle).
+    destruct (in_band_inv _ _ _ B1) as (s & a & d & n & m & Es & Enu & Hs & Ha & Hd & _).
+    destruct (in_band_inv _ _ _ B2) as (s' & a' & d' & n' & m' & Es' & Enu' & Hs' & Ha' & Hd' & _).
+    unfold t_le in Hle. unfold c11_toy_tnu_cdf. rewrite Es, Es' in *. rewrite Enu, Enu' in *. inversion En; subst n' m'.
+    destruct (n <=? 0); [discriminate|]. intros E E'. assert (Ec : c = 32 + 8 * Z.sgn (s * a)) by congruence.
+    assert (Ec' : c' = 32 + 8 * Z.sgn (s' * a')) by congruence. subst c c'. clear E E'.
+    assert (Z.sgn (s * a) <= Z.sgn (s' * a')); [|lia].
+    destruct (Z.sgn_spec (s * a)) as [[A ->]|[[A ->]|[A ->]]]; destruct (Z.sgn_spec (s' * a')) as [[A' ->]|[[A' ->]|[A' ->]]]; try lia; nia.
+  - intros g g' Hb. assert (En : tnu_nu g = tnu_nu g' /\ tnu_sq g <> None /\ tnu_sq g' <> None).
+    { destruct Hb as [(B1 & B2 & En & _)|(B2 & B1 & En & _)];
+      destruct (in_band_inv _ _ _ B1) as (s & a & d & n & m & Es & _);
+      destruct (in_band_inv _ _ _ B2) as (s' & a' & d' & n' & m' & Es' & _);
+      rewrite Es, Es'; repeat split; congruence. }
+    destruct En as (En & S1 & S2). unfold c11_toy_tnu_cdf. rewrite <- En.
+    destruct (tnu_sq g) as [[[s a] d]|]; [|congruence]. destruct (tnu_sq g') as [[[s' a'] d']|]; [|congruence].
+    destruct (tnu_nu g) as [[n m]|]; [|reflexivity]. destruct (n <=? 0); [reflexivity|discriminate].
+  - cbv zeta. split; vm_compute; reflexivity.
+Qed.
+
 (* the decision vectors of the two routes coincide (every gene, not only the recorded ones) *)
-Theorem c11_welch_route_decisions : forall H lo hi T b tn cdfs,
+Theorem c11_welch_route_decisions : forall H lo hi T b t_cdf tn,
   0 < H -> 0 <= lo <= H -> H <= hi <= 2 * H -> T <= 2 * H ->
-  (forall gc c, In gc (combine tn cdfs) -> gbrg b gc = true -> gcdf gc = Some c ->
-                T <= 2 * c /\ T <= 2 * (2 * H - c)) ->
-  map (fun v => v <? T) (approx_correct_ttest (2 * H) T (welch_pvalues H lo hi b tn cdfs))
-  = map (fun v => v <? T) (correct_ttest (2 * H) 0 (welch_pvalues H lo hi None tn cdfs)).
+  (forall g c, In g tn -> gbrg b g = true -> gcdf t_cdf g = Some c ->
+               T <= 2 * c /\ T <= 2 * (2 * H - c)) ->
+  map (fun v => v <? T) (approx_correct_ttest (2 * H) T (welch_pvalues H lo hi b t_cdf tn))
+  = map (fun v => v <? T) (correct_ttest (2 * H) 0 (welch_pvalues H lo hi None t_cdf tn)).
 Proof. exact welch_route_decisions. Qed.
 Print Assumptions c11_welch_route_decisions.
 
-(* completeness in terms of the statistics *)
-Theorem c11_complete_from_stats : forall st mask D H lo hi T b cdfs s1 s2 v up g l1 l2 c1 c2 q1 qd f,
-  0 < st_S st ->
-  sdg_stats st mask D H lo hi T b cdfs s1 s2 = POk (v, up) ->
+(* (BY CONSTRUCTION OF THE MODEL since the oracle is a function of the statistic: recorded here so that the
+   earlier defect - two genes with identical statistics given different p-values - is visibly impossible) *)
+Theorem c11_equal_statistic_equal_p : forall H lo hi b t_cdf tn i j g,
+  nth_error tn i = Some g -> nth_error tn j = Some g ->
+  nth_error (welch_pvalues H lo hi b t_cdf tn) i = nth_error (welch_pvalues H lo hi b t_cdf tn) j.
+Proof. intros H lo hi b t_cdf tn i j g Ei Ej. unfold welch_pvalues. rewrite !nth_error_map, Ei, Ej. reflexivity. Qed.
+Print Assumptions c11_equal_statistic_equal_p.
+(* nu is not dead: the same t at two different nu may get two different p-values (a table oracle as on the wire) *)
+Example c11_nu_matters :
+  let tbl := [(TN 1 9 1 5 1, Some 60); (TN 1 9 1 50 1, Some 63)] in
+  welch_pvalues 32 1 63 None (table_cdf tbl) [TN 1 9 1 5 1; TN 1 9 1 50 1] = [8; 2].
+Proof. vm_compute. reflexivity. Qed.
+
+(* completeness in terms of the statistics.  Under off_threshold a gene ON OR ABOVE the three strict
+   thresholds is strictly above them, so the hypothesis is the non-strict one *)
+Theorem c11_complete_from_stats : forall st mask D H lo hi T b t_cdf s1 s2 v up g l1 l2 c1 c2 q1 qd f,
+  0 < st_S st -> 0 < D ->
+  sdg_stats st mask D H lo hi T b t_cdf s1 s2 = POk (v, up) ->
   st_n_min st <= s_n s1 -> st_n_min st <= s_n s2 ->
   cstats_of s1 = POk l1 -> cstats_of s2 = POk l2 -> nth_error l1 g = Some c1 -> nth_error l2 g = Some c2 ->
-  (exists a, nth_error (approx_correct_ttest (2 * H) T (welch_pvalues H lo hi b (welch_genes D l1 l2) cdfs)) g = Some a /\ a < T) ->
+  (exists a, nth_error (approx_correct_ttest (2 * H) T (welch_pvalues H lo hi b t_cdf (welch_genes D l1 l2))) g = Some a /\ a < T) ->
   in_list mask g ->
+  0 <= c_ge1 c1 -> 0 <= c_ge1 c2 -> off_threshold (st_th st) D (st_S st) c1 c2 ->
   to_S (st_S st) (q1_r c1 c2) = Some q1 -> to_S (st_S st) (qdiff_r c1 c2) = Some qd ->
-  to_S (st_S st) (fold_r D c1 c2) = Some f ->
-  strictly_passes (st_th st) (q1, qd, f) ->
+  to_S (st_S st) (fold_f D c1 c2) = Some f ->
+  on_or_above_thresholds (st_th st) (q1, qd, f) ->
   nth_error v g = Some true.
 Proof. exact sdg_stats_complete. Qed.
 Print Assumptions c11_complete_from_stats.
 
-Theorem c11_stats_pair_wf : forall D S H lo hi T b cdfs s1 s2 x,
-  stats_pair D S H lo hi T b cdfs s1 s2 = POk x -> pair_wf x.
+Theorem c11_stats_pair_wf : forall D S H lo hi T b t_cdf s1 s2 x,
+  stats_pair D S H lo hi T b t_cdf s1 s2 = POk x -> pair_wf x.
 Proof. exact stats_pair_wf. Qed.
 Print Assumptions c11_stats_pair_wf.
 
-(* zero-variance genes (the quantifier names them): variance 0 in both clusters, any sizes >= 1 - the
-   code's denominator sqrt(0) is replaced by 1.0e-10 (t = dmean/1e-10) and nu_denom = 0 by 1.0, so
-   nu = 0; scipy's t.cdf(., df=0) is NaN, hence (c11_welch_p_nan) the p-value is 1 and the gene is
-   never recorded, however far apart the means are.  (Observed on the real code on every run.) *)
+(* CONSTANT ("zero-variance") GENES (the quantifier names them; audit 3, defect A2).  The model's inputs are
+   the statistics AS STORED (float sum and sumsq read as exact dyadics) and its variance is the binary64
+   variance var_f (Model/Welch.v): (sumsq - sum^2/n)/(n-1) with every operation rounded.
+   - c11_welch_zero_variance / c11_welch_constant_gene: when that float variance is EXACTLY 0.0 in both
+     clusters (any sizes >= 1) - which is what happens for a constant that is dyadic with few bits: 0, 2.0, 0.25 -
+     the code's denominator sqrt(0) is replaced by 1.0e-10 (t = dmean/1e-10), nu_denom = 0 by 1.0, so nu = 0;
+     scipy's t.cdf(., df=0) is NaN (hypothesis nan_at_nu_zero, an observed fact about scipy), the p-value is 1
+     and THE GENE IS NOT RECORDED however far apart the means are (all cells 2.0 against all cells 0.0: finding
+     F28, c11-constant-gene-not-recorded).
+   - otherwise (c11_welch_constant_gene_noise): a constant 0.7 in 9 cells has float variance -1.1e-16 (negative:
+     sqrt gives NaN, NaN > 0 is false, denom = 1e-10 again, t = 7e9, but now nu_denom > 0 and nu = 8); a constant
+     3.3 in 11 cells has +1.4e-15 (t = 2.9e8, nu = 10).  Such genes ARE recorded by the real code when their
+     penetrance passes (observed on every run, harness welch_cases 'constant-nondyadic'): whether a constant
+     gene is a marker is decided by the rounding residue, then by the oracle.
+   The earlier comment here ("never recorded ... observed on every run") was true of dyadic constants only. *)
 Theorem c11_welch_zero_variance : forall D c1 c2,
-  1 <= c_n c1 -> 1 <= c_n c2 -> fst (var_r D c1) = 0 -> fst (var_r D c2) = 0 ->
-  exists nud, welch_gene D c1 c2 = TN_tiny (fst (mdiff_r D c1 c2)) (snd (mdiff_r D c1 c2)) 0 nud.
+  1 <= c_n c1 -> 1 <= c_n c2 -> fst (var_f D c1) = 0 -> fst (var_f D c2) = 0 ->
+  exists nud, welch_gene D c1 c2 = TN_tiny (fst (mdiff_f D c1 c2)) (snd (mdiff_f D c1 c2)) 0 nud.
 Proof. exact welch_zero_variance. Qed.
 Print Assumptions c11_welch_zero_variance.
+
+Theorem c11_welch_constant_gene : forall st mask D H lo hi T b t_cdf s1 s2 v up g l1 l2 c1 c2,
+  0 < D -> 0 < H -> 0 <= lo <= H -> H <= hi <= 2 * H -> T <= 2 * H ->
+  - st_S st < q1_min (st_th st) -> q1_min (st_th st) < q1_th (st_th st) ->
+  (* scipy: t.cdf(x, df=0) is NaN *) (forall g n m, tnu_nu g = Some (n, m) -> n = 0 -> t_cdf g = None) ->
+  sdg_stats st mask D H lo hi T b t_cdf s1 s2 = POk (v, up) ->
+  cstats_of s1 = POk l1 -> cstats_of s2 = POk l2 -> nth_error l1 g = Some c1 -> nth_error l2 g = Some c2 ->
+  1 <= c_n c1 -> 1 <= c_n c2 -> fst (var_f D c1) = 0 -> fst (var_f D c2) = 0 ->
+  (exists nud, welch_gene D c1 c2 = TN_tiny (fst (mdiff_f D c1 c2)) (snd (mdiff_f D c1 c2)) 0 nud) /\
+  nth_error (welch_pvalues H lo hi b t_cdf (welch_genes D l1 l2)) g = Some (2 * H) /\
+  nth_error v g <> Some true.
+Proof. exact constant_gene_not_recorded. Qed.
+Print Assumptions c11_welch_constant_gene.
+
+(* the stored statistics of real constant genes (numbers printed by numpy for np.full((n,1), v); D = 2^50, 2^46, 2):
+   0.7 x 9 cells: float variance NEGATIVE, statistic in the denom = 1e-10 branch with nu = 8 (to rounding);
+   3.3 x 11 cells: float variance positive, ordinary branch, t^2 > 8e16, nu = 10 (to rounding);
+   2.0 x 4 cells: float variance 0: nu = 0;  each against 6 cells at 0.
+   The EXACT variance of the stored numbers (var_r) of the first is a different number (-6.2e-17 against the
+   float's -1.1e-16 = -2^-53): reading the stored values as exact and computing exactly does not reproduce
+   the float variance, which is why var_f rounds every operation. *)
+Example c11_welch_constant_gene_noise :
+  let z6 := mk_cstat 6 0 0 0 in
+  let c07 := mk_cstat 9 7093169413108531 5590339147006490714844539387904 0 in
+  let c33 := mk_cstat 11 2554385413649203 593171349223982773114167623680 11 in
+  let c20 := mk_cstat 4 16 64 4 in
+  (fst (var_f (2 ^ 50) c07) < 0 /\
+   fst (var_f (2 ^ 50) c07) * snd (var_r (2 ^ 50) c07) <> fst (var_r (2 ^ 50) c07) * snd (var_f (2 ^ 50) c07) /\
+   match welch_gene (2 ^ 50) c07 z6 with TN_tiny dn dd nun nud => 0 < dn /\ 7 * nud < nun < 9 * nud /\ 0 < nud | _ => False end) /\
+  (0 < fst (var_f (2 ^ 46) c33) /\
+   match welch_gene (2 ^ 46) c33 z6 with TN s a d nun nud => s = 1 /\ 8 * 10 ^ 16 * d < a /\ 9 * nud < nun < 11 * nud /\ 0 < nud | _ => False end) /\
+  (fst (var_f 2 c20) = 0 /\
+   match welch_gene 2 c20 z6 with TN_tiny dn dd nun nud => 0 < dn /\ nun = 0 | _ => False end).
+Proof. cbv zeta. vm_compute. repeat split; try reflexivity; discriminate. Qed.
+
+(* (the next two are 5-line READ-OFFS of welch_p's definition, kept for the record: what the code does with a
+   NaN CDF value and with an empty cluster is by construction of the model; the content is in the tie, tags
+   1150 / 1153 with cluster sizes 0 and 1) *)
 Theorem c11_welch_p_nan : forall H lo hi b g, 0 < H -> lo <= H <= hi -> welch_p H lo hi b g None = 2 * H.
 Proof. exact welch_p_nan. Qed.
 Print Assumptions c11_welch_p_nan.
@@ -655,7 +857,7 @@ Theorem c11_welch_swap_boring : forall bn bd g, tnu_boring bn bd (tnu_neg g) = t
 Proof. exact tnu_boring_neg. Qed.
 Print Assumptions c11_welch_swap_boring.
 Theorem c11_welch_swap_scores : forall D c1 c2,
-  fold_r D c2 c1 = (fst (fold_r D c1 c2), snd (fold_r D c2 c1)) /\ snd (fold_r D c2 c1) = snd (fold_r D c1 c2) /\
+  fold_f D c2 c1 = (fst (fold_f D c1 c2), snd (fold_f D c2 c1)) /\ snd (fold_f D c2 c1) = snd (fold_f D c1 c2) /\
   req (q1_r c2 c1) (q1_r c1 c2) /\
   (0 <= c_ge1 c1 -> 0 <= c_ge1 c2 -> req (qdiff_r c2 c1) (qdiff_r c1 c2)).
 Proof. exact welch_scores_swap. Qed.
@@ -673,25 +875,28 @@ Example c11_welch_swap_p_clip_caveat :
 Proof. exact welch_p_swap_clip_differs. Qed.
 
 (* a concrete statistics file (D = 4): two clusters of 4 cells, gene 0 a marker (8 +- 0.5 against
-   0.25 +- 0.25), gene 1 with ZERO VARIANCE in both clusters (8 against 0: nu = 0, CDF NaN, never
-   recorded), gene 2 identical in both; and a ONE-CELL cluster (var = 0, 0/0 -> nu_denom = 1.0) *)
+   0.25 +- 0.25), gene 1 CONSTANT at a dyadic value in both clusters (8 against 0: float variance 0, nu = 0,
+   CDF NaN, not recorded), gene 2 identical in both; and a ONE-CELL cluster (var = 0, 0/0 -> nu_denom = 1.0).
+   The oracle is a function of the statistic (here: of the sign of t). *)
 Definition c11_sa := mk_summary 4 [128; 128; 1] [4104; 4096; 1] [4; 4; 1] [4; 4; 0] [4; 4; 0].
 Definition c11_sb := mk_summary 4 [4; 0; 1] [8; 0; 1] [2; 0; 1] [0; 0; 0] [0; 0; 0].
 Definition c11_s1 := mk_summary 1 [32; 32; 0] [1024; 1024; 0] [1; 1; 0] [1; 1; 0] [1; 1; 0].
+Definition c11_orc (g : tnu) : option Z := match g with TN s _ _ _ _ => Some (512 + 511 * s) | _ => None end.
 Example c11_from_stats_nonvacuous :
-  (exists x, stats_pair 4 1024 512 1 1023 10 None [Some 1023; None; Some 512] c11_sa c11_sb = POk x /\
+  (exists x, stats_pair 4 1024 512 1 1023 10 None c11_orc c11_sa c11_sb = POk x /\
      pi_p x = [2; 1024; 1024] /\ pi_scores x = [(1024, 1024, 7936); (1024, 1024, 8192); (0, 0, 0)] /\
      pi_mean1 x = [8192; 8192; 64] /\ pi_mean2 x = [256; 0; 64]) /\
-  sdg_stats c11_st None 4 512 1 1023 10 (Some (5, 2)) [Some 1023; None; Some 512] c11_sa c11_sb
+  sdg_stats c11_st None 4 512 1 1023 10 (Some (5, 2)) c11_orc c11_sa c11_sb
   = POk ([true; false; false], [false; false; false]) /\
+  (* sign of t and whether nu > 0, per gene *)
   (match cstats_of c11_sa, cstats_of c11_sb with
-   | POk a, POk b => map (fun g => match g with TN s _ _ _ _ => s | TN_tiny dn _ nun _ => 100 + nun | TN_nan => -100 end)
+   | POk a, POk b => map (fun g => match g with TN s _ _ nun _ => s * (1 + Z.sgn nun) | TN_tiny dn _ nun _ => 100 + nun | TN_nan => -100 end)
                          (welch_genes 4 a b)
-   | _, _ => [] end) = [1; 100; 0] /\
+   | _, _ => [] end) = [2; 100; 0] /\
   (match cstats_of c11_s1, cstats_of c11_sb with
-   | POk a, POk b => map (fun g => match g with TN s _ _ nun _ => s * nun | TN_tiny dn _ nun _ => 100 + nun | TN_nan => -100 end)
+   | POk a, POk b => map (fun g => match g with TN s _ _ nun _ => s * (1 + Z.sgn nun) | TN_tiny dn _ nun _ => 100 + nun | TN_nan => -100 end)
                          (welch_genes 4 a b)
-   | _, _ => [] end) = [65536; 100; - 2304].
+   | _, _ => [] end) = [2; 100; - 2].
 Proof.
   split; [eexists; split; [vm_compute; reflexivity|]; repeat split|].
   split; [vm_compute; reflexivity|]. split; vm_compute; reflexivity.
@@ -701,7 +906,13 @@ Qed.
 (* the gene-major tables: the pair-major table of ANY per-pair gene lists with indices below n_genes
    is a well-formed compressed matrix (C13's wf_comp), so transpose_sparse_matrix_on_disk (C13's model,
    every elements_at_a_time, chunk sizes >= 1) returns the transpose specification: a well-formed
-   table with n_genes rows, as many entries, storing (g, j) iff the pair-major table stores (j, g) *)
+   table with n_genes rows, as many entries, storing (g, j) iff the pair-major table stores (j, g).
+   SCOPE: this is the SERIAL branch of add_sparse_by_gene_markers_to_file (n_processors = 1 ->
+   transpose_sparse_matrix_on_disk).  With n_processors > 1 the code calls transpose_sparse_matrix_on_disk_v2
+   (csc_to_csr_parallel.py), whose model and theorem are C13's (c13_parallel_exact: the parallel result equals
+   the same transpose_spec for inputs without duplicate (row, col) entries - table_of rows has none when each
+   per-pair list is duplicate-free, which up_down's lists are); the two are not composed here, the tie for
+   the parallel branch is the end-to-end runs of e2e_cases with n_processors in {1, 2, 3}. *)
 Theorem c11_tables_transpose : forall rows n_genes E L Lc,
   Forall (Forall (fun g => (g < n_genes)%nat)) rows -> (1 <= L)%nat -> (1 <= Lc)%nat ->
   exists t, transpose (table_of rows) false n_genes None E L Lc = Ok t /\
